@@ -733,7 +733,7 @@ func (e *Engine) listObj(st *State, v Value) (*ListObj, int, bool) {
 func listPushFront(e *Engine, st *State, args []Value, depth int, pos string, k func(*State, Value)) {
 	l, cell, ok := e.listObj(st, args[0])
 	if !ok {
-		k(st, VUnknown{nil, "list.PushFront"})
+		k(st, VUnknown{Typ: nil, Note: "list.PushFront"})
 		return
 	}
 	ev := e.feedEvTerm(st, args[1])
@@ -755,7 +755,7 @@ func listLen(e *Engine, st *State, args []Value, depth int, pos string, k func(*
 func listBack(e *Engine, st *State, args []Value, depth int, pos string, k func(*State, Value)) {
 	l, _, ok := e.listObj(st, args[0])
 	if !ok {
-		k(st, VUnknown{nil, "list.Back"})
+		k(st, VUnknown{Typ: nil, Note: "list.Back"})
 		return
 	}
 	// Back() of an empty list is nil; otherwise an element whose Value is the oldest queued event
@@ -839,7 +839,7 @@ func (e *Engine) feedEventValue(st *State, ev Term) Value {
 func listRemove(e *Engine, st *State, args []Value, depth int, pos string, k func(*State, Value)) {
 	l, cell, ok := e.listObj(st, args[0])
 	if !ok {
-		k(st, VUnknown{nil, "list.Remove"})
+		k(st, VUnknown{Typ: nil, Note: "list.Remove"})
 		return
 	}
 	// only removal of the back element is used (queue.pull)
@@ -848,7 +848,7 @@ func listRemove(e *Engine, st *State, args []Value, depth int, pos string, k fun
 	// so the shifted sequence is left uninterpreted rather than axiomatised with a quantifier
 	st.heap[cell] = &ListObj{Seq: shifted, Len: Sub(l.Len, IntLit(1)), NilT: l.NilT}
 	st.addTrace(TraceEv{Kind: "list.removeback", Pos: pos})
-	k(st, VUnknown{nil, "removed"})
+	k(st, VUnknown{Typ: nil, Note: "removed"})
 }
 
 var SFeedEv = &Sort{"FeedEv"}
